@@ -36,6 +36,45 @@ Fixpoint trim_right (l : list N) : list N :=
   end.
 Definition trim (l : list N) : list N := trim_right (trim_left l).
 
+(* strings.TrimSpace as it is on ARBITRARY bytes: unicode.IsSpace on UTF-8 decoded runes.  The white
+   space code points U+0009..000D, 0020, 0085, 00A0, 1680, 2000..200A, 2028, 2029, 202F, 205F, 3000 have
+   exactly one (shortest-form) encoding each, every other byte sequence decodes to a non-space rune or to
+   RuneError, and the encodings start with a non-continuation byte, so both TrimLeftFunc (DecodeRune)
+   and TrimRightFunc (DecodeLastRune: back to the nearest rune-start byte) remove exactly these byte
+   sequences.  useq / useq_r: length of the space sequence at the head of the text / of the reversed text. *)
+Definition cond3 (a b c : N) : bool :=
+  ((a =? 225) && (b =? 154) && (c =? 128))
+  || ((a =? 226) && (b =? 128) && (((128 <=? c) && (c <=? 138)) || (c =? 168) || (c =? 169) || (c =? 175)))
+  || ((a =? 226) && (b =? 129) && (c =? 159))
+  || ((a =? 227) && (b =? 128) && (c =? 128)).
+Definition useq (l : list N) : nat :=
+  match l with
+  | [] => O
+  | a :: t => if is_space a then 1%nat else
+      match t with
+      | [] => O
+      | b :: t2 => if (a =? 194) && ((b =? 133) || (b =? 160)) then 2%nat else
+          match t2 with [] => O | c :: _ => if cond3 a b c then 3%nat else O end
+      end
+  end.
+Definition useq_r (rl : list N) : nat :=
+  match rl with
+  | [] => O
+  | z :: t => if is_space z then 1%nat else
+      match t with
+      | [] => O
+      | y :: t2 => if (y =? 194) && ((z =? 133) || (z =? 160)) then 2%nat else
+          match t2 with [] => O | x :: _ => if cond3 x y z then 3%nat else O end
+      end
+  end.
+Fixpoint strip (sq : list N -> nat) (fuel : nat) (l : list N) : list N :=
+  match fuel with
+  | O => l
+  | S f => match sq l with O => l | k => strip sq f (skipn k l) end
+  end.
+Definition trim_u (l : list N) : list N :=
+  let l1 := strip useq (length l) l in rev (strip useq_r (length l1) (rev l1)).
+
 (* ParsedData: nil (root), LiteralData(name), string *)
 Inductive pdata := PNil | PLit (s : list N) | PStr (s : list N).
 Inductive pres := PR (lft : list N) (v : pdata) | PErr | PCrash (w : N).
